@@ -120,9 +120,16 @@ func gen(r *vu.Rng, i int) []string {
 			src = randomPath(r)
 		}
 		var dst []string
-		switch r.Intn(10) {
+		switch r.Intn(14) {
 		case 0, 1:
 			dst = src
+		case 10, 11, 12, 13:
+			// a fresh or existing name in some directory (mostly unrelated to src)
+			par := dirs[r.Intn(len(dirs))]
+			dst = append(append([]string{}, par...), names[r.Intn(3)])
+			if r.Chance(1, 3) {
+				dst = append(dst, names[r.Intn(3)])
+			}
 		case 2, 3:
 			dst = src[:r.Intn(len(src)+1)]
 			if len(dst) == len(src) && len(src) > 0 {
@@ -148,14 +155,14 @@ func gen(r *vu.Rng, i int) []string {
 			method = "move"
 		}
 		host := "none"
-		switch r.Intn(16) {
-		case 0, 1, 2:
+		switch r.Intn(40) {
+		case 0, 1, 2, 3, 4, 5, 6:
 			host = "same"
-		case 3:
+		case 7:
 			host = "other"
-		case 4:
+		case 8:
 			host = "absent"
-		case 5:
+		case 9:
 			host = "invalid"
 		}
 		srcRaw := prefix + spell(r, src, false)
@@ -186,7 +193,7 @@ func gen(r *vu.Rng, i int) []string {
 			dstRaw = "/" + dstRaw
 		}
 		ow := []string{"T", "T", "T", "T", "-", "-", "F", "F", "X", "T"}[r.Intn(10)]
-		depth := []string{"-", "-", "-", "-", "-", "-", "infinity", "infinity", "0", "0", "1", "bad"}[r.Intn(12)]
+		depth := []string{"-", "-", "-", "-", "-", "-", "-", "-", "-", "-", "infinity", "infinity", "infinity", "0", "0", "0", "1", "bad"}[r.Intn(18)]
 		// COPY with Depth infinity into a destination two or more levels below the source
 		// re-reads directories it has just created and runs into copyFiles' recursion limit
 		// (1000 nested collections, status 500; the TODO in copyFiles). The model follows it
